@@ -31,6 +31,7 @@ OPS = {
     "midi_load": ["midi_file.py", "midi_message.py", "midi_track.py", "sequences_load"],
     "midi_roundtrip": ["midi_file.py", "midi_message.py", "midi_track.py", "sequences_save", "sequences_load", "to_midi_track"],
     "music_theory": ["music_theory.py"],
+    "composition": ["composition.py", "track.py", "bar.py", "sequences_split_bars", "Sequence.transpose", "Sequence.copy"],
 }
 
 
